@@ -538,19 +538,114 @@ def _dedup_sites(func):
     return out
 
 
+NAMING_ROOTS = ('get_component_unique_name', 'get_component_full_name', 'rtlir_tr_component_unique_name',
+                'get_rtlir_dtype', 'get_name', 'get_full_name', 'get_field_str', '_gen_parameters', 'get_params')
+
+
+NAMING_FILES = (RUTIL, RTYPE, RDTYPE, VUTIL, VSL1)
+
+
+def naming_path(repo):
+    """ids of the FunctionDef nodes (in the reporting scope) that a module / struct name is computed by: everything
+    reachable through resolved calls from the name functions, plus their nested helpers"""
+    an = analysis(repo)
+    todo = [fi for nm in NAMING_ROOTS for fi in an.by_name.get(nm, []) if fi.mod.rel in NAMING_FILES]
+    if not any(fi.node.name == 'get_component_full_name' for fi in todo):
+        raise AnalysisError("anchor vanished: get_component_full_name")
+    seen = {}
+    while todo:
+        fi = todo.pop()
+        if fi.id in seen or fi.mod.rel not in NAMING_FILES:
+            continue
+        seen[fi.id] = fi
+        for n in ast.walk(fi.node):           # nested helpers included
+            if isinstance(n, ast.FunctionDef) and n is not fi.node and id(n) in an.by_node:
+                todo.append(an.by_node[id(n)])
+            if isinstance(n, ast.Call):
+                host = an.by_node.get(id(enclosing(n, (ast.FunctionDef,)))) or fi
+                k = an.resolve_callees(host, n, fi.mod)
+                if k[0] == 'funcs':
+                    todo.extend(x for x, _ in k[1])
+    return {id(fi.node): fi for fi in seen.values()}
+
+
+def _memo_sites(func):
+    """memo shapes other than `if K not in D`:  D.setdefault(K, V)  and  try: D[K] / except KeyError: D[K] = V
+    -> (node, K, D, V, hit statements)"""
+    out = []
+    for n in _own(func):
+        if isinstance(n, ast.Call) and isinstance(n.func, ast.Attribute) and n.func.attr == 'setdefault' and len(n.args) == 2:
+            out.append((n, n.args[0], n.func.value, n.args[1], []))
+        elif isinstance(n, ast.Try) and any(h.type is not None and 'KeyError' in norm(h.type) for h in n.handlers):
+            reads = [x for b in n.body for x in ast.walk(b) if isinstance(x, ast.Subscript) and isinstance(x.ctx, ast.Load)]
+            for h in n.handlers:
+                for x in [y for b in h.body for y in ast.walk(b) if isinstance(y, ast.Assign)]:
+                    for tg in x.targets:
+                        if isinstance(tg, ast.Subscript) and any(norm(rd.value) == norm(tg.value) and
+                                                                 norm(rd.slice) == norm(tg.slice) for rd in reads):
+                            out.append((n, tg.slice, tg.value, x.value, []))
+    return out
+
+
+def _is_module_state(m, func, D):
+    """D denotes a module level (or class level) mutable table"""
+    root = D
+    while isinstance(root, (ast.Attribute, ast.Subscript)):
+        root = root.value
+    if not isinstance(root, ast.Name):
+        return False
+    cur = func
+    while cur is not None:
+        if isinstance(cur, ast.FunctionDef):
+            names = {a.arg for a in cur.args.args} | {x.id for x in ast.walk(cur) if isinstance(x, ast.Name) and
+                                                       isinstance(x.ctx, ast.Store)}
+            if root.id in names:
+                return False
+        cur = parent(cur)
+    if isinstance(D, ast.Name):
+        return root.id in m.assigns or root.id in m.imports
+    # Class.table[...] / cls.table[...]
+    return root.id in m.classes or root.id in ('cls',)
+
+
 def rule_dedup(repo):
     r = RuleResult('R-C13-dedup', "a first-writer-wins table of emitted definitions is keyed by the object / a record "
-                                  "pairing, or checks identity when the key is already present")
+                                  "pairing, or checks identity when the key is already present; a memo table on the "
+                                  "naming path is keyed by the object itself, never by a lossy projection such as __name__")
     scope = [f for f in scope_files(repo) if f not in DEBUG_ONLY]
     enumerated = _enumerated_names(repo, scope)
+    npath = naming_path(repo)
+    r.ok(RUTIL, '<naming path>', f"{len(npath)} functions compute module / struct names (searched for memo tables)",
+         nontrivial=False)
     for rel in scope:
         m = repo.mod(rel)
         for func in [n for n in ast.walk(m.tree) if isinstance(n, ast.FunctionDef)]:
-            for ifn, K, D, V, hit in _dedup_sites(func):
+            on_path = id(func) in npath
+            sites = _dedup_sites(func) + (_memo_sites(func) if on_path else [])
+            for ifn, K, D, V, hit in sites:
                 q = qualname(ifn)
                 cons = f"table `{_terminal(D)}` filled first-writer-wins, keyed by {_key_desc(K, func)}"
                 amb = _ambient(m, func)
                 tname = _terminal(D)
+                lossy_attr = isinstance(K, ast.Attribute) and K.attr in ('__name__', '__qualname__')
+                if on_path and _is_module_state(m, func, D):
+                    r.observations.append(f"{rel}: {q}: module-level table `{norm(D)}` is consulted while a name is computed: "
+                                          f"its entries survive from one translation to the next")
+                if on_path or lossy_attr:
+                    # a cache consulted while a NAME is computed: a stale or aliased entry silently renames hardware.
+                    # Accepted only when the key is the object itself and the value is a function of it.
+                    if isinstance(K, ast.Name) and not lossy_attr and (sources(V, func, stop={K.id}) - amb) <= {K.id} and \
+                            not [v for v in _local_assignments(func).get(K.id, []) if v is not None]:
+                        r.ok(m, q, cons, note=f"memo keyed by the object `{K.id}` itself")
+                    else:
+                        vs = sorted(sources(V, func, stop=set()) - amb)
+                        r.bad(m, q, cons,
+                              f"a memo table on the naming path is keyed by `{norm(K)}`, a lossy projection of what the cached "
+                              f"value is computed from ({vs}): two different objects with the same key (e.g. two BitStruct "
+                              f"classes with the same __name__ but different fields, in one design or in two translations of "
+                              f"one process) get the first one's name component, so different hardware shares a module name",
+                              getattr(ifn, 'lineno', 0))
+                    continue
                 # (a) K and V are targets of the same iteration (copying an existing pairing)
                 loop = enclosing(ifn, (ast.For,))
                 if loop is not None and isinstance(K, ast.Name) and isinstance(V, ast.Name):
@@ -960,8 +1055,65 @@ def rule_name(repo):
     else:
         r.bad(dm, 'Struct.__eq__', norm(eq.body)[:80], "struct equality (the key of the typedef table) must compare the "
               "complete, unhashed names", eq.lineno)
-    r.require_floor(17)
+    _placeholder_name(r, repo)
+    r.require_floor(18)
     return r
+
+
+VPLACEHOLDER = 'pymtl3/passes/backends/verilog/VerilogPlaceholderPass.py'
+
+
+def _placeholder_name(r, repo):
+    """the wrapper module of a placeholder is named by get_component_unique_name(<its RTLIR>) whenever construct() has
+    parameters; the decision is evaluated over {cfg.params empty / not} x {irepr.get_params() empty / not}"""
+    from sa.astutil import subst
+    m = repo.mod(VPLACEHOLDER)
+    f = m.get_func('VerilogPlaceholderPass.setup_default_configs')
+    chains = [n for n in _own(f) if isinstance(n, ast.If) and n.orelse and
+              all(any(isinstance(x, ast.Assign) and isinstance(x.targets[0], ast.Attribute) and
+                      x.targets[0].attr == 'pickled_top_module' for x in blk) for blk in (n.body, n.orelse))]
+    if len(chains) != 1:
+        raise AnalysisError("setup_default_configs: decision assigning cfg.pickled_top_module not found")
+    ch = chains[0]
+    la = _local_assignments(f)
+    test = ch.test
+    for _ in range(4):
+        mp = {nm: vs[0] for nm, vs in la.items() if len(vs) == 1 and vs[0] is not None and nm in _names_of(test)}
+        if not mp:
+            break
+        test = subst(test, mp)
+    rparam = f.args.args[-1].arg
+
+    def value_of(blk):
+        return [x.value for x in blk if isinstance(x, ast.Assign) and isinstance(x.targets[0], ast.Attribute)
+                and x.targets[0].attr == 'pickled_top_module'][0]
+
+    def is_unique(v):
+        return any(isinstance(c, ast.Call) and norm(c.func).endswith('get_component_unique_name') and
+                   [norm(a) for a in c.args] == [rparam] for c in ast.walk(v))
+    wrong = []
+    for rp in ([], [('nbits', 8)]):
+        for cp in ({}, {'p': 1}):
+            def leaf(e, rp=rp, cp=cp):
+                if isinstance(e, ast.Call) and isinstance(e.func, ast.Attribute) and e.func.attr == 'get_params':
+                    return rp
+                if isinstance(e, ast.Attribute) and e.attr == 'params':
+                    return cp
+                return NotImplemented
+            taken = bool(Evaluator({}, arith=False, leaf=leaf, funcs={'bool': bool, 'len': len, 'any': any, 'all': all}).ev(test))
+            r.evaluations += 1
+            v = value_of(ch.body if taken else ch.orelse)
+            if rp and not is_unique(v):
+                wrong.append((bool(rp), bool(cp), norm(v)))
+    cons = "placeholder wrapper name over {construct() parameters present} x {cfg.params present}"
+    if wrong:
+        w = wrong[0]
+        r.bad(m, 'VerilogPlaceholderPass.setup_default_configs', cons,
+              f"with construct() parameters present and cfg.params {'set' if w[1] else 'empty'} the wrapper module is named "
+              f"{w[2]} instead of get_component_unique_name({rparam}): placeholders VReg(8) and VReg(16) both become "
+              f"`<Class>_noparam` although their bodies differ", ch.lineno)
+    else:
+        r.ok(m, 'VerilogPlaceholderPass.setup_default_configs', cons)
 
 
 def _hex_ranges(chars):
@@ -1348,7 +1500,122 @@ def rule_defaults(repo):
     return r
 
 
-RULES = [rule_unordered, rule_dedup, rule_name, rule_once, rule_instname, rule_defname, rule_defaults]
+def _translator_classes(repo, files):
+    """classes that implement translation hooks (at least one rtlir_tr_* method), also inside class factories"""
+    out = []
+    for rel in files:
+        m = repo.mod(rel)
+        for c in ast.walk(m.tree):
+            if isinstance(c, ast.ClassDef) and any(isinstance(x, ast.FunctionDef) and x.name.startswith('rtlir_tr_')
+                                                   for x in c.body):
+                out.append((m, c))
+    return out
+
+
+def _conditional(node, func):
+    """the statement does not run on every execution of func (branch, loop, handler, after an early exit)"""
+    if guards_of(node):
+        return True
+    p = parent(node)
+    while p is not None and p is not func:
+        if isinstance(p, (ast.If, ast.For, ast.While, ast.Try, ast.ExceptHandler, ast.With)) and not isinstance(p, ast.With):
+            return True
+        p = parent(p)
+    return False
+
+
+def rule_state(repo):
+    r = RuleResult('R-C13-state', "translator state that decides emitted names / text is unconditionally re-initialised at the "
+                                  "start of every translate() (a translator object is reused for several roots)")
+    INIT = ('rtlir_tr_initialize',)
+    vfiles = [f for f in scope_files(repo) if f.startswith(VTRANS)]
+    yfiles = [f for f in scope_files(repo) if f.startswith(YTRANS)]
+    vinit_attrs = None
+    for backend, files, base in (('verilog', vfiles, []), ('yosys', yfiles, vfiles)):
+        classes = _translator_classes(repo, files + base)
+        if not classes:
+            raise AnalysisError(f"anchor vanished: no translator classes in the {backend} back-end")
+        stores, reads = {}, set()
+        hooks = []
+        for m, c in classes:
+            for f in [x for x in c.body if isinstance(x, ast.FunctionDef)]:
+                me = f.args.args[0].arg if f.args.args else None
+                if f.name in INIT and m.rel in files:
+                    hooks.append((m, c, f))
+                for n in ast.walk(f):
+                    if isinstance(n, ast.Attribute) and isinstance(n.value, ast.Name) and n.value.id == me:
+                        if isinstance(n.ctx, ast.Store):
+                            stores.setdefault(n.attr, []).append((m, c, f, n))
+                        else:
+                            reads.add(n.attr)
+        own_hook = bool(hooks)
+        if backend == 'verilog' and not hooks:
+            raise AnalysisError("anchor vanished: rtlir_tr_initialize of the SystemVerilog translator")
+        if backend == 'yosys' and not hooks:
+            # inherits the SystemVerilog hook: nothing of its own to compare
+            r.ok(YTRANSLATOR, 'YosysTranslator', 'inherits rtlir_tr_initialize of the SystemVerilog translator', nontrivial=False)
+        # (i) inside the hook every re-initialisation is unconditional
+        init_uncond = set()
+        for m, c, f in hooks:
+            calls_super = any(isinstance(x, ast.Call) and isinstance(x.func, ast.Attribute) and x.func.attr == f.name and
+                              isinstance(x.func.value, ast.Call) and norm(x.func.value.func) == 'super' and
+                              not _conditional(x, f) for x in ast.walk(f))
+            me = f.args.args[0].arg
+            per_attr = {}
+            for n in ast.walk(f):
+                if isinstance(n, ast.Attribute) and isinstance(n.ctx, ast.Store) and isinstance(n.value, ast.Name) and n.value.id == me:
+                    per_attr.setdefault(n.attr, []).append(n)
+            for attr, ns in sorted(per_attr.items()):
+                cons = f"{backend}: {f.name} re-initialises `{attr}`"
+                if any(not _conditional(n, f) for n in ns):
+                    init_uncond.add(attr)
+                    r.ok(m, qualname(f), cons)
+                else:
+                    r.bad(m, qualname(f), cons,
+                          f"`{me}.{attr}` is reset only under a condition ({' and '.join(repr(g) for g in guards_of(ns[0]))[:120]}): "
+                          f"the value written while translating one root survives into the next translate() of the same "
+                          f"translator, e.g. an ordinary root is emitted under the previous placeholder root's module name",
+                          ns[0].lineno)
+            if backend == 'yosys' and vinit_attrs is not None and not calls_super:
+                missing = sorted(vinit_attrs - init_uncond)
+                if missing:
+                    r.bad(m, qualname(f), f"yosys: {f.name} vs the SystemVerilog hook",
+                          f"overrides the initialise hook without calling super() and does not reset {missing}", f.lineno)
+        if backend == 'verilog':
+            vinit_attrs = set(init_uncond)
+        else:
+            init_uncond |= (vinit_attrs or set()) if not own_hook or True else set()
+        # (ii) carried state: an attribute with a conditional store outside the hooks / __init__, that is read somewhere,
+        # must be reset unconditionally by the hook
+        for attr, lst in sorted(stores.items()):
+            outside = [(m, c, f, n) for m, c, f, n in lst if f.name not in INIT and f.name != '__init__' and m.rel in files + base]
+            cond = [(m, c, f, n) for m, c, f, n in outside if _conditional(n, f)]
+            uncond = [x for x in outside if x not in cond]
+            if not cond or attr not in reads:
+                continue
+            if backend == 'yosys' and not any(m.rel in files for m, c, f, n in lst) and attr in (vinit_attrs or set()):
+                continue          # judged with the SystemVerilog back-end
+            m, c, f, n = cond[0]
+            cons = f"{backend}: `{attr}` written conditionally during translation ({f.name})"
+            # an attribute that the same method always writes before (unconditional store elsewhere in every writer) is fresh
+            if attr in init_uncond:
+                r.ok(m, qualname(f), cons, note="reset unconditionally by rtlir_tr_initialize")
+            elif uncond and all(any(u[2] is w[2] for u in uncond) for w in cond):
+                r.ok(m, qualname(f), cons, nontrivial=False, note="every writer also stores it unconditionally")
+            else:
+                r.bad(m, qualname(f), cons,
+                      f"`{attr}` is written only on some paths of {f.name} and read elsewhere, but rtlir_tr_initialize does not "
+                      f"reset it unconditionally: the value of a previous translate() of the reused translator leaks into the "
+                      f"names / text of the next one", n.lineno)
+        init_only = sorted(a for a, lst in stores.items() if all(f.name == '__init__' for m, c, f, n in lst) and a in reads)
+        if init_only:
+            r.observations.append(f"{backend}: attributes bound only in __init__ (mutated in place during translation, "
+                                  f"balanced push/pop assumed): {init_only}")
+    r.require_floor(5)
+    return r
+
+
+RULES = [rule_unordered, rule_dedup, rule_name, rule_once, rule_instname, rule_defname, rule_defaults, rule_state]
 
 
 # ---------------------------------------------------------------------------------------------
@@ -1445,6 +1712,25 @@ MUTANTS = [
        "'__'.join(f'{field_name}' \\", 'R-C13-name'),
     _m('struct-eq-by-hashed-name', RDTYPE, "return isinstance(u, Struct) and s.get_full_name() == u.get_full_name()",
        "return isinstance(u, Struct) and s.get_name() == u.get_name()", 'R-C13-name'),
+    _m('struct-name-memo-keyed-by-class-name', RUTIL,
+       "        return get_rtlir_dtype( obj() ).get_name()\n",
+       "        if obj.__name__ not in _struct_name_cache:\n"
+       "          _struct_name_cache[ obj.__name__ ] = get_rtlir_dtype( obj() ).get_name()\n"
+       "        return _struct_name_cache[ obj.__name__ ]\n", 'R-C13-dedup'),
+    _m('struct-name-memo-setdefault-by-class-name', RUTIL,
+       "        return get_rtlir_dtype( obj() ).get_name()\n",
+       "        return get_string.__dict__.setdefault( obj.__name__, get_rtlir_dtype( obj() ).get_name() )\n", 'R-C13-dedup'),
+    _m('placeholder-name-ignores-construct-params', VPLACEHOLDER,
+       "has_params = bool( irepr.get_params() ) or bool( cfg.params )", "has_params = bool( cfg.params )", 'R-C13-name'),
+    _m('placeholder-name-needs-both-param-kinds', VPLACEHOLDER,
+       "has_params = bool( irepr.get_params() ) or bool( cfg.params )",
+       "has_params = bool( irepr.get_params() ) and bool( cfg.params )", 'R-C13-name'),
+    # --- R-C13-state
+    _m('translator-state-initialised-once', VTRANSLATOR,
+       "      s._mangled_placeholder_top_module_name = ''\n      s._included_pickled_files = set()\n",
+       "      if not hasattr( s, '_included_pickled_files' ):\n        s._mangled_placeholder_top_module_name = ''\n"
+       "        s._included_pickled_files = set()\n", 'R-C13-state'),
+    _m('mangled-top-name-not-reset', VTRANSLATOR, "      s._mangled_placeholder_top_module_name = ''\n", "", 'R-C13-state'),
     # --- R-C13-once
     _m('components-filtered', VTRANSLATOR, 'return "\\n\\n".join( components.values() )',
        'return "\\n\\n".join( c for c in components.values() if c )', 'R-C13-once'),
@@ -1501,6 +1787,17 @@ EQUIV = [
        "        name = s.structural.component_unique_name[m]\n        if name not in components:\n          components[name] = s.rtlir_tr_component(",
        "        uname = s.structural.component_unique_name[m]\n        if not uname in components:\n          components[uname] = s.rtlir_tr_component(",
        None),
+    _m('struct-name-memo-keyed-by-class', RUTIL,
+       "        return get_rtlir_dtype( obj() ).get_name()\n",
+       "        if obj not in get_string.__dict__:\n"
+       "          get_string.__dict__[ obj ] = get_rtlir_dtype( obj() ).get_name()\n"
+       "        return get_string.__dict__[ obj ]\n", None),
+    _m('placeholder-has-params-inlined', VPLACEHOLDER,
+       "      has_params = bool( irepr.get_params() ) or bool( cfg.params )\n      if has_params:",
+       "      if irepr.get_params() or cfg.params:", None),
+    _m('initialise-hook-reordered', VTRANSLATOR,
+       "      s._mangled_placeholder_top_module_name = ''\n      s._included_pickled_files = set()\n",
+       "      s._included_pickled_files = set()\n      s._mangled_placeholder_top_module_name = ''\n", None),
     _m('local-renamed-in-unique-name', VUTIL, "  param_name = param_hash.hexdigest()\n  return comp_name + \"__\" + param_name",
        "  digest = param_hash.hexdigest()\n  return comp_name + \"__\" + digest", None),
 ]
